@@ -262,10 +262,10 @@ class BPMEvent(Event):
                 ``line``.
         """
 
-        bpm_whole_part_str, bpm_decimal_part_str = data.raw_bpm[:-3], data.raw_bpm[-3:]
-        bpm_whole_part = int(bpm_whole_part_str) if bpm_whole_part_str != "" else 0
-        bpm_decimal_part = int(bpm_decimal_part_str) / 1000
-        bpm = bpm_whole_part + bpm_decimal_part
+        # The last 3 digits are the decimal places. A single division yields the float nearest to
+        # the written value; summing separately converted whole and decimal parts can be one ulp
+        # off, which would then be rejected by __post_init__ (e.g. "1118" -> 1.1179999999999999).
+        bpm = int(data.raw_bpm) / 1000
 
         if prev_event is None:
             timestamp, proximal_bpm_event_index = Timestamp(timedelta(0)), 0
